@@ -36,8 +36,8 @@ def run(ctx):
     o = "%s.big" % out_h
     outs_h.append(o)
     jobs.append(dict(module="MC_C01big", name="MC_C01big", workers=6, timeout=1800, invariants=("TypeOK",),
-                     constants=dict(Seed=ctx.seed, N1=S([0, 1, 55, 56, 63, 64, 65] if ctx.tier == "quick" else list(range(0, 66)) + [127, 128, 129]),
-                                    N2=S([0, 1, 8, 9, 56, 64, 65, 128] if ctx.tier == "quick" else list(range(0, 66)) + [127, 128, 129, 192]),
+                     constants=dict(Seed=ctx.seed, N1=S([0, 1, 55, 56, 63, 64, 65] if ctx.tier == "quick" else [0, 1, 8, 55, 56, 57, 63, 64, 65, 119, 120, 127, 128, 129]),
+                                    N2=S([0, 1, 8, 9, 56, 64, 65, 128] if ctx.tier == "quick" else [0, 1, 8, 9, 55, 56, 57, 63, 64, 65, 72, 127, 128, 129, 192]),
                                     DeltaIds=S([1, 2, 3, 4, 5, 6]), OutFile=core.tla_str(o))))
     if ctx.tier == "quick":
         # every block count 1..17 of the output (each remainder of the 4- and 8-lane batches on both SIMD tiers) on a few alignments of z
